@@ -158,6 +158,10 @@ func init() {
 							c.Fail("", "parsed geometry differs from the marshalled one (kind, nesting or coordinate bits)", map[string]interface{}{"case": d(), "got": sv(got), "got_kind": refmodel.KindName(got)})
 							break
 						}
+						if !partsIndependent(got) {
+							c.Fail("", "parts of one parsed geometry share memory: appending to one part overwrites another", map[string]interface{}{"case": d(), "now": sv(got)})
+							break
+						}
 						// typed functions: accept exactly their own kind
 						bad := false
 						for _, tf := range c04typed {
